@@ -8,6 +8,7 @@ import (
 	"fmt"
 	"hash"
 	"math"
+	"os"
 	"strconv"
 	"strings"
 	"testing"
@@ -159,7 +160,7 @@ func c22Membership(r *verifh.Rand, k int) []c22Node {
 // c22SweepCase: one membership, a chunk of keys; each key is queried on the membership in its
 // first insertion order, after a removal, after re-adding the removed node (same membership, other
 // insertion order) and after adding a new node.
-func c22SweepCase(r *verifh.Rand, ms []c22Node, extra c22Node, keys []string, hashCfg string) verifh.Case {
+func c22SweepCase(r *verifh.Rand, ms []c22Node, extra c22Node, keys []string, hashCfg string, prefixes bool) verifh.Case {
 	c := verifh.Case{Cfg: []string{hashCfg}}
 	perm := r.Perm(len(ms))
 	for _, i := range perm {
@@ -179,6 +180,10 @@ func c22SweepCase(r *verifh.Rand, ms []c22Node, extra c22Node, keys []string, ha
 	gets(full)
 	c.Ops = append(c.Ops, c22Add(extra), c22Op("nodes"))
 	gets(full)
+	if prefixes {
+		gets("1") // what initCASVolumes asks for
+		gets(strconv.Itoa(1 + r.Intn(len(ms)+1)))
+	}
 	return c
 }
 
@@ -186,7 +191,23 @@ func c22RandKey(r *verifh.Rand) string {
 	return hex.EncodeToString(r.Bytes(r.Intn(40)))
 }
 
+// c22Attach holds a write end of the transcript fifo from before the first write to the end of the
+// run, so that a short transcript cannot be written and discarded before the driver has attached
+// (verifh.Open uses O_RDWR, which does not wait for a reader).
+func c22Attach() func() {
+	p := os.Getenv("VERIF_OUT")
+	if fi, err := os.Stat(p); p == "" || err != nil || fi.Mode()&os.ModeNamedPipe == 0 {
+		return func() {}
+	}
+	f, err := os.OpenFile(p, os.O_WRONLY, 0)
+	if err != nil {
+		return func() {}
+	}
+	return func() { f.Close() }
+}
+
 func TestVerif_C22(t *testing.T) {
+	defer c22Attach()()
 	tr := verifh.Open("hrw")
 	defer tr.Close()
 	cases, replayOnly := verifh.InputCases("hrw")
@@ -212,7 +233,7 @@ func TestVerif_C22(t *testing.T) {
 		}
 		sweeps = append(sweeps, sweep{"hash=sha256", 4, 1}, sweep{"hash=sha256", 9, 1})
 	} else {
-		sweeps = []sweep{{"hash=murmur", 5, 1}, {"hash=murmur", 2 + r.Intn(10), 8}, {"hash=sha256", 3 + r.Intn(5), 16}}
+		sweeps = []sweep{{"hash=murmur", 5, 1}, {"hash=murmur", 2 + r.Intn(10), 16}, {"hash=sha256", 3 + r.Intn(5), 32}}
 	}
 	for _, sw := range sweeps {
 		ms := c22Membership(r, sw.size+1)
@@ -220,7 +241,7 @@ func TestVerif_C22(t *testing.T) {
 		var chunk []string
 		flush := func() {
 			if len(chunk) > 0 {
-				c22Exec(tr, c22SweepCase(r, ms, extra, chunk, sw.hash))
+				c22Exec(tr, c22SweepCase(r, ms, extra, chunk, sw.hash, sw.every > 1 || verifh.Thorough()))
 				tr.Count("sweep_cases", 1)
 				tr.Count("sweep_keys_"+sw.hash[5:], len(chunk))
 				chunk = nil
@@ -228,7 +249,7 @@ func TestVerif_C22(t *testing.T) {
 		}
 		for k := 0; k < 65536; k += sw.every {
 			chunk = append(chunk, fmt.Sprintf("%04x", k))
-			if len(chunk) == 32 {
+			if len(chunk) == 8 {
 				flush()
 			}
 		}
